@@ -1,0 +1,12 @@
+//go:build verif
+
+package postgresql
+
+// Add-only hook for the verification harness (/verif), compiled only with -tags verif.
+
+// VerifS64FormatConsts returns the unexported constants of the result-format rule: the two format codes a
+// Bind packet may carry (GetParameterFormatByIndex) and the value handleQueryDataPacket compares the
+// per-column format with to decide "binary".
+func VerifS64FormatConsts() (bindText, bindBinary uint16, dataText, dataBinary int) {
+	return bindFormatText, bindFormatBinary, dataFormatText, dataFormatBinary
+}
